@@ -1,4 +1,5 @@
-(* PV.C17.Refuted — counter-models: one per guard conjunct that exists because the CODE fails: none left.
+(* PV.C17.Refuted — counter-models: one per guard conjunct that exists because the CODE fails
+   (open finding C17-FUSE-ALIAS-COLLISION: alias_name_collision_refuted).
    Regression examples of the repaired findings C17-STATIC-KEY, C17-STATIC-CALLABLE-TUPLE (/repo d3e6e19) and
    C17-CONTEXT-REORDERS-PREDECESSORS (/repo 4400919). *)
 From Coq Require Import List Bool PArith Arith.
@@ -83,3 +84,27 @@ Example inplace_relabel_moved_to_end :
   map tid (nodes (relabel1 task task_eqb o_wf o_a (task_replace o_a [o_ctx] 100))) = [2; 3; 1]%positive /\
   map tid (nodes (replace_task o_wf o_a (task_replace o_a [o_ctx] 100))) = [1; 2; 3]%positive.
 Proof. crunch. Qed.
+
+(* ---- 4. OPEN finding C17-FUSE-ALIAS-COLLISION: the alias name dask.optimization.fuse makes up is a static string ---- *)
+(* Task('a', f1, 'a-results') -> Task('r', f2) after the inline step: {'results': (f2, (f1, 'a-results'))}; fuse stores
+   it under the new key 'a-results' (= 99) and the static string becomes a reference of the task to itself *)
+Definition al_d : dsk := [(results, STuple [SFun 2; STuple [SFun 1; SStr 99]])].
+
+Theorem alias_name_collision_refuted :
+  exists (d : dsk) (r a : positive),
+    g_alias_unmentioned d a = false /\
+    fuse_step_ok_weak d (FAlias r a) = true /\ nodupp (dkeys d) = true /\ length (dask_sched d) = length d /\
+    dask_get fam_apply d results = ROk (STuple [SAtom 2; STuple [SAtom 1; SStr 99]]) /\
+    dask_get fam_apply (fuse_step d (FAlias r a)) results = RCycle.
+Proof. exists al_d, results, 99%positive. crunch. Qed.
+
+(* the whole optimisation on the dict of that workflow: inline a, alias results *)
+Definition al_a : task := mkTask 1 1 1 [SStr 99] false.
+Definition al_r : task := mkTask 2 2 2 [] false.
+Definition al_wf : tgraph := workflow_of (add_task (add_task g_empty al_a []) al_r [al_a]).
+Theorem alias_name_collision_optimize_refuted :
+  exists (g : tgraph) (ids : task -> positive) (steps : list fstep),
+    fuse_steps_weak (scatter_dsk (the_dict g ids)) steps = (true, true) /\ avoids results steps = true /\
+    dask_get fam_apply (the_dict g ids) results = ROk (STuple [SAtom 2; STuple [SAtom 1; SStr 99]]) /\
+    dask_get_dist_log fam_apply (fst (fuse_steps (scatter_dsk (the_dict g ids)) steps)) results = (RCycle, []).
+Proof. exists al_wf, r_ids, [FInline 11; FAlias results 99]%positive. crunch. Qed.
